@@ -2830,6 +2830,21 @@ def _async_block_poll(it, args, dty, func):
     return it.run_body(it.prog.body(fn), [coro, args[1]])
 
 
+@trait_model(r"^std::pin::Pin", "Future", "poll")
+def _pinned_box_poll(it, args, dty, func):
+    # Pin<Box<dyn Future>> as returned by #[async_trait] methods: the box holds the coroutine of an async block
+    coro = args[0]
+    while isinstance(coro, Ref) and not (isinstance(coro.load(), Agg) and str(coro.load().ty).startswith("{coroutine")):
+        nxt = coro.load()
+        if not isinstance(nxt, Ref):
+            raise Unsupported(f"poll of pinned {nxt!r}")
+        coro = nxt
+    fn = it.async_block_fn(str(coro.load().ty))
+    if fn is None:
+        raise Unsupported("async block body not found: " + str(coro.load().ty)[:100])
+    return it.run_body(it.prog.body(fn), [coro, args[1]])
+
+
 @trait_model(r"^\{async block@", "IntoFuture", "into_future")
 def _async_block_into(it, args, dty, func):
     return args[0]
